@@ -91,7 +91,9 @@ def main():
     open(os.path.join(h, "Cargo.toml"), "w").write(tpl)
     shutil.copy(os.path.join(REPO, "Cargo.lock"), os.path.join(h, "Cargo.lock"))
     env = dict(os.environ, CARGO_NET_OFFLINE="true", CARGO_TARGET_DIR=os.path.join(SCRATCH, "target"),
-               RUSTFLAGS="--cfg rre_verif -C instrument-coverage")
+               RUSTFLAGS="--cfg rre_verif -C instrument-coverage",
+               # build scripts and proc macros are instrumented too: keep their profiles out of the repository
+               LLVM_PROFILE_FILE=os.path.join(SCRATCH, "prof", "build-%p-%m.profraw"))
     bins = [low] + list(getattr(prop, "EXTRA_BINS", []))
     cmd = ["cargo", "+nightly", "build", "--offline"]
     for b in bins:
